@@ -44,6 +44,8 @@ func c19EndToEnd(ev *vlib.Evidence, idx int) {
 		{"enode.host-ipv4", "203.0.113.50", "30303", []string{"--enode.host=203.0.113.50"}},
 		{"enode.host-ipv4-port", "203.0.113.51", "31000", []string{"--enode.host=203.0.113.51:31000"}},
 		{"enode.host-ipv6-port", "2001:db8::51", "31001", []string{"--enode.host=[2001:db8::51]:31001"}},
+		{"enode.host-ipv6", "2001:db8::52", "30303", []string{"--enode.host=[2001:db8::52]"}},
+		{"enode.host-dns", "node.example.net", "30303", []string{"--enode.host=node.example.net"}},
 	}
 	c := cfgs[idx%len(cfgs)]
 	// pool
